@@ -1,4 +1,4 @@
-// rule: C20_sealed
+// rule: C20_seal_covers_rhs
 // query: sealed-rhs tensors::operations Similar private Sealed
 // expect: error E0277
 #![allow(unused)]
